@@ -27,9 +27,10 @@ VARIABLES
   height,  \* chain height known to the plugin
   panics,  \* number of panics observed in plugin code
   iss,     \* RPC calls issued by the plugin in the LAST step (set of call records)
+  rets,    \* values returned to a direct caller of wait_payment / pay in the LAST step
   last,    \* the environment event of the LAST step (history; never read by a guard)
   obs      \* observer bookkeeping per hash, see ObsInit
-nodeVars == <<cfg, htlc, parts, pay, ds, att, now, height, panics, iss, last, obs>>
+nodeVars == <<cfg, htlc, parts, pay, ds, att, now, height, panics, iss, rets, last, obs>>
 \* what distinguishes states: everything but the two history variables
 nodeView == <<cfg, htlc, parts, pay, ds, att, now, height, panics, obs>>
 
@@ -161,6 +162,7 @@ NodeInit(c) ==
   /\ height = c.h0
   /\ panics = 0
   /\ iss = {}
+  /\ rets = {}
   /\ last = [t |-> "init"]
   /\ obs = ObsInit
 
@@ -175,6 +177,7 @@ NodeReset(c) ==
   /\ height' = c.h0
   /\ panics' = 0
   /\ iss' = {}
+  /\ rets' = {}
   /\ last' = [t |-> "reset"]
   /\ obs' = ObsInit
   /\ htlc' = <<>>
@@ -204,7 +207,8 @@ FundedBefore(h) == HeldT(h) # {} /\ FeeOK(SumAmt(htlc, HeldT(h)), SetA(htlc, h))
 (*   re.issues  : set of call records issued in this step                   *)
 (*   re.drops   : set of [c, cst] : calls whose future the plugin dropped   *)
 (*   re.npanic  : panics in this step                                       *)
-NoReaction == [answers |-> <<>>, issues |-> {}, drops |-> {}, npanic |-> 0]
+(*   re.rets    : set of [fn, hash, r, key] returned to a direct caller     *)
+NoReaction == [answers |-> <<>>, issues |-> {}, drops |-> {}, npanic |-> 0, rets |-> {}]
 
 HtlcAfterEvent(ev) ==
   IF ev.t = "htlc"
@@ -284,6 +288,7 @@ NodeStep(ev, re) ==
   /\ height' = IF ev.t = "height" THEN ev.h ELSE height
   /\ panics' = panics + re.npanic
   /\ iss' = issues
+  /\ rets' = re.rets
   /\ last' = ev
   /\ obs' = ObsAfter(ev, hpost, re)
 
